@@ -7,7 +7,8 @@ Streams (cluster Conv = coq/theories/Model/Conv.v extracted):
   CtorInit   model number_init/numbers_init vs the converter constructors (asserts, size normalisation)
   FromWords  model from_words     vs  definition.extract on a typed definition; constructor-argument
              grid x value texts; eval is an oracle recorded from the implementation's own calls.
-  AsWords    (not part of the C10 check; kept for C09/C16) model as_words vs converter.as_words
+  AsWords    (not in C10's SPEC; exported for C09/C16) model as_words vs converter.as_words; the "%.10g" texts
+             are an oracle table built by the harness
 """
 import builtins
 import itertools
@@ -877,12 +878,19 @@ class AsWords(Stream):
     master = FromWords.master
 
     VALUES = ["None", "Auto", "0", "1", "-7", "True", "False", "2.5", "-2.5", "0.0", "-0.0", "1e22", "1e-7", "1/3", "inf", "-inf",
-              "nan", "10**400", "10**4299", "10**4300", "2.7", "-2.7", "1e308", "[1]", "[]", "[1, 2]", "[1, 2, 3]", "[1.5, None]",
+              "nan", "10**400", "2.7", "-2.7", "1e308", "[1]", "[]", "[1, 2]", "[1, 2, 3]", "[1.5, None]",
               "[Auto, 1]", "[None]", "[2.5, -1]", "[nan]", "[inf, 1]", "[[1]]", "[True, 0]", "[10**400]", "[1, 2, 3, 4]", "[0.1, 3]"]
+
+    HUGE_VALUES = ["10**4299", "10**4300", "-10**4300", "[10**4299]", "[1, 10**4300]"]
 
     def cases(self, rng, tier):
         for ty in type_grid(tier):
             for v in self.VALUES:
+                yield [ty, v]
+        for ty in (["int", None, None, True], ["int", "0", None, True], ["float", None, None, True],
+                   ["ints", None, None, None, None, None, False, False], ["ints", None, None, None, None, "3", False, False],
+                   ["floats", None, None, None, None, None, False, False]):
+            for v in self.HUGE_VALUES:
                 yield [ty, v]
 
     def val(self, s):
